@@ -1,6 +1,7 @@
 package lint
 
 import (
+	"sort"
 	"fmt"
 	"go/constant"
 	"go/token"
@@ -368,7 +369,14 @@ func (p *Program) funcRef(f *ssa.Function) string {
 	}
 
 	if obj, ok := f.Object().(*types.Func); ok && obj != nil {
-		return trimMod(obj.FullName())
+		ref := trimMod(obj.FullName())
+
+		// an anchor found under a new name keeps the name the rules know it by
+		if old, ok := p.canonName[f]; ok {
+			ref = ref[:strings.LastIndex(ref, ".")+1] + old
+		}
+
+		return ref
 	}
 
 	if f.Parent() != nil {
@@ -550,6 +558,13 @@ func (p *Program) desc(v ssa.Value, depth int) string {
 	case *ssa.BinOp:
 		return "(" + p.desc(x.X, depth-1) + x.Op.String() + p.desc(x.Y, depth-1) + ")"
 	case *ssa.Phi:
+		// during a path search, a join that the path has bound is described as its incoming value
+		if p.curEnv != nil {
+			if b, ok := p.curEnv.bind[x]; ok && b != ssa.Value(x) {
+				return p.desc(b, depth)
+			}
+		}
+
 		parts := make([]string, len(x.Edges))
 		for i, e := range x.Edges {
 			parts[i] = p.desc(e, depth-1)
@@ -599,6 +614,20 @@ func (p *Program) desc(v ssa.Value, depth int) string {
 //
 // where D, A, B are Desc strings. A comparison also yields its mirrored form.
 func (p *Program) Facts(cond ssa.Value, taken bool) []string {
+	return p.factsD(cond, taken, 0)
+}
+
+func (p *Program) factsD(cond ssa.Value, taken bool, depth int) []string {
+	out := p.plainFacts(cond, taken)
+	if len(out) == 1 && (out[0] == "always" || out[0] == "never") {
+		return out
+	}
+
+	return append(out, p.impliedFacts(cond, taken, depth)...)
+}
+
+// plainFacts: the facts of the test itself.
+func (p *Program) plainFacts(cond ssa.Value, taken bool) []string {
 	neg := !taken
 	cond = Fwd(cond)
 
@@ -654,19 +683,225 @@ func (p *Program) Facts(cond ssa.Value, taken bool) []string {
 			mirror := map[token.Token]token.Token{token.EQL: token.EQL, token.NEQ: token.NEQ, token.LSS: token.GTR, token.GTR: token.LSS, token.LEQ: token.GEQ, token.GEQ: token.LEQ}
 			x, y := p.Desc(b.X), p.Desc(b.Y)
 
-			return []string{
+			out := []string{
 				names[op] + "(" + x + "," + y + ")",
 				names[mirror[op]] + "(" + y + "," + x + ")",
+			}
+
+			// a length is never negative: `len(x) != 0`, `len(x) > 0` and `len(x) >= 1` are one test
+			// (likewise `== 0`, `<= 0`, `< 1`); every spelling is offered to the rules
+			lenSide, k, lop := "", "", op
+
+			switch {
+			case strings.HasPrefix(x, "call:builtin.len(") || strings.HasPrefix(x, "call:builtin.cap("):
+				lenSide, k = x, y
+			case strings.HasPrefix(y, "call:builtin.len(") || strings.HasPrefix(y, "call:builtin.cap("):
+				lenSide, k, lop = y, x, mirror[op]
+			}
+
+			if lenSide != "" {
+				nonEmpty, empty := false, false
+
+				switch {
+				case k == "const:0" && (lop == token.NEQ || lop == token.GTR), k == "const:1" && lop == token.GEQ:
+					nonEmpty = true
+				case k == "const:0" && (lop == token.EQL || lop == token.LEQ), k == "const:1" && lop == token.LSS:
+					empty = true
+				}
+
+				if nonEmpty {
+					out = append(out, "ne("+lenSide+",const:0)", "gt("+lenSide+",const:0)", "ge("+lenSide+",const:1)")
+				}
+
+				if empty {
+					out = append(out, "eq("+lenSide+",const:0)", "le("+lenSide+",const:0)", "lt("+lenSide+",const:1)")
+				}
+			}
+
+			return out
+		}
+	}
+
+	own := "true(" + p.Desc(cond) + ")"
+	if neg {
+		own = "false(" + p.Desc(cond) + ")"
+	}
+
+	return []string{own}
+}
+
+// CondTruth is a boolean value together with an outcome.
+type CondTruth struct {
+	Cond  ssa.Value
+	Truth bool
+	If    *ssa.If // the test, where the condition comes from a specific one
+}
+
+// impliedConds: what the outcome of a boolean that is not itself a comparison implies.
+//
+//   - a flag computed once (`ok := a && b`, possibly captured by a function literal): true(ok) implies
+//     a and b; false(a || b) implies !a and !b;
+//   - a bool variable that is only ever assigned `true` (`var send bool; if … { send = true }`):
+//     reading true implies the outcomes of the tests that dominate every such assignment.
+//
+// The implied conditions are values of the function that computed the flag.
+func (p *Program) impliedConds(v ssa.Value, truth bool, depth int) []CondTruth {
+	if depth > 4 || v == nil {
+		return nil
+	}
+
+	v = Fwd(v)
+
+	for {
+		u, ok := v.(*ssa.UnOp)
+		if !ok || u.Op != token.NOT {
+			break
+		}
+
+		truth = !truth
+		v = Fwd(u.X)
+	}
+
+	self := func(x ssa.Value, t bool) []CondTruth {
+		return append([]CondTruth{{Cond: x, Truth: t}}, p.impliedConds(x, t, depth+1)...)
+	}
+
+	switch x := v.(type) {
+	case *ssa.FreeVar:
+		fn := x.Parent()
+		if mc := p.ClosureSite(fn); mc != nil {
+			for i, fv := range fn.FreeVars {
+				if fv == x && i < len(mc.Bindings) {
+					return self(mc.Bindings[i], truth)
+				}
+			}
+		}
+	case *ssa.Phi:
+		j := x.Block()
+		if j == nil || len(x.Edges) != 2 || len(j.Preds) != 2 {
+			return nil
+		}
+
+		// short-circuit shape: one incoming value is the constant that the deciding test's edge yields
+		for k := range 2 {
+			c, ok := x.Edges[k].(*ssa.Const)
+			if !ok || c.Value == nil || c.Value.Kind() != constant.Bool {
+				continue
+			}
+
+			if constant.BoolVal(c.Value) == truth {
+				continue // the constant arm gives exactly this outcome: nothing is implied
+			}
+
+			// the outcome differs from the constant arm: the other arm was taken
+			test := j.Preds[k]
+			other := x.Edges[1-k]
+
+			var out []CondTruth
+
+			if len(test.Instrs) > 0 {
+				if ifi, ok := test.Instrs[len(test.Instrs)-1].(*ssa.If); ok && len(test.Succs) == 2 && test.Succs[0] != test.Succs[1] {
+					// the edge of test that does NOT go straight to the join
+					out = append(out, self(ifi.Cond, test.Succs[0] != j)...)
+				}
+			}
+
+			return append(out, self(other, truth)...)
+		}
+	case *ssa.UnOp:
+		if sv := p.loadedSingleValue(x); sv != nil {
+			if _, isConst := sv.(*ssa.Const); !isConst {
+				return self(sv, truth)
+			}
+		}
+
+		if x.Op != token.MUL || !truth {
+			return nil
+		}
+
+		var al *ssa.Alloc
+
+		switch a := x.X.(type) {
+		case *ssa.Alloc:
+			al = a
+		case *ssa.FreeVar:
+			al = p.freeVarAlloc(a)
+		}
+
+		if al == nil {
+			return nil
+		}
+
+		if b, ok := al.Type().(*types.Pointer).Elem().Underlying().(*types.Basic); !ok || b.Kind() != types.Bool {
+			return nil
+		}
+
+		stores := AllStores(al)
+		if len(stores) == 0 {
+			return nil
+		}
+
+		type key struct {
+			c ssa.Value
+			t bool
+		}
+
+		var common map[key]bool
+
+		for _, st := range stores {
+			c, ok := st.Val.(*ssa.Const)
+			if !ok || c.Value == nil || c.Value.Kind() != constant.Bool || !constant.BoolVal(c.Value) || st.Block() == nil || st.Block().Parent() != al.Parent() {
+				return nil
+			}
+
+			here := map[key]bool{}
+
+			des, _ := p.domChainEdges(st.Block(), nil)
+			for _, e := range des {
+				for _, ct := range self(e.Cond, e.Truth) {
+					here[key{ct.Cond, ct.Truth}] = true
+				}
+			}
+
+			if common == nil {
+				common = here
+			} else {
+				for k := range common {
+					if !here[k] {
+						delete(common, k)
+					}
+				}
+			}
+		}
+
+		var out []CondTruth
+		for k := range common {
+			out = append(out, CondTruth{Cond: k.c, Truth: k.t})
+		}
+
+		return out
+	}
+
+	return nil
+}
+
+// impliedFacts renders impliedConds as fact strings (sorted).
+func (p *Program) impliedFacts(v ssa.Value, truth bool, depth int) []string {
+	var out []string
+
+	for _, ct := range p.impliedConds(v, truth, depth) {
+		for _, f := range p.plainFacts(ct.Cond, ct.Truth) {
+			if f != "always" && f != "never" {
+				out = append(out, f)
 			}
 		}
 	}
 
-	if neg {
-		return []string{"false(" + p.Desc(cond) + ")"}
-	}
+	sort.Strings(out)
 
-	return []string{"true(" + p.Desc(cond) + ")"}
+	return out
 }
+
 
 func isNilConst(v ssa.Value) bool {
 	c, ok := v.(*ssa.Const)
@@ -994,6 +1229,283 @@ func (p *Program) singleStoreSeenBy(al *ssa.Alloc, fv *ssa.FreeVar) *ssa.Store {
 
 	if dominates(st.Block(), mc.Block()) {
 		return st
+	}
+
+	return nil
+}
+
+// impliedAnyOf: disjunctions implied by the outcome of a computed flag — false(a && b) means !a or !b,
+// true(a || b) means a or b, and a bool variable that is only ever assigned `true` behind a chain of
+// tests reaching back to the function entry reads false only if one of those tests went the other way.
+func (p *Program) impliedAnyOf(v ssa.Value, truth bool, depth int) [][]CondTruth {
+	if depth > 4 || v == nil {
+		return nil
+	}
+
+	v = Fwd(v)
+
+	for {
+		u, ok := v.(*ssa.UnOp)
+		if !ok || u.Op != token.NOT {
+			break
+		}
+
+		truth = !truth
+		v = Fwd(u.X)
+	}
+
+	switch x := v.(type) {
+	case *ssa.FreeVar:
+		fn := x.Parent()
+		if mc := p.ClosureSite(fn); mc != nil {
+			for i, fv := range fn.FreeVars {
+				if fv == x && i < len(mc.Bindings) {
+					return p.impliedAnyOf(mc.Bindings[i], truth, depth+1)
+				}
+			}
+		}
+	case *ssa.Phi:
+		j := x.Block()
+		if j == nil || len(x.Edges) != 2 || len(j.Preds) != 2 {
+			return nil
+		}
+
+		for k := range 2 {
+			c, ok := x.Edges[k].(*ssa.Const)
+			if !ok || c.Value == nil || c.Value.Kind() != constant.Bool || constant.BoolVal(c.Value) != truth {
+				continue
+			}
+
+			// the outcome equals the constant arm: either the deciding test went straight to the join,
+			// or the other operand evaluated to this outcome
+			test := j.Preds[k]
+			other := x.Edges[1-k]
+
+			if len(test.Instrs) == 0 {
+				return nil
+			}
+
+			ifi, ok := test.Instrs[len(test.Instrs)-1].(*ssa.If)
+			if !ok || len(test.Succs) != 2 || test.Succs[0] == test.Succs[1] {
+				return nil
+			}
+
+			return [][]CondTruth{{{Cond: ifi.Cond, Truth: test.Succs[0] == j}, {Cond: other, Truth: truth}}}
+		}
+	case *ssa.UnOp:
+		if sv := p.loadedSingleValue(x); sv != nil {
+			if _, isConst := sv.(*ssa.Const); !isConst {
+				return p.impliedAnyOf(sv, truth, depth+1)
+			}
+		}
+
+		if x.Op != token.MUL || truth {
+			return nil
+		}
+
+		var al *ssa.Alloc
+
+		switch a := x.X.(type) {
+		case *ssa.Alloc:
+			al = a
+		case *ssa.FreeVar:
+			al = p.freeVarAlloc(a)
+		}
+
+		if al == nil {
+			return nil
+		}
+
+		if b, ok := al.Type().(*types.Pointer).Elem().Underlying().(*types.Basic); !ok || b.Kind() != types.Bool {
+			return nil
+		}
+
+		stores := AllStores(al)
+
+		if len(stores) != 1 {
+			return nil
+		}
+
+		st := stores[0]
+		if c, ok := st.Val.(*ssa.Const); !ok || c.Value == nil || c.Value.Kind() != constant.Bool || !constant.BoolVal(c.Value) || st.Block() == nil || st.Block().Parent() != al.Parent() {
+			return nil
+		}
+
+		// the store is behind these edges and executes whenever all are taken: reading false needs (at
+		// least) one of the tests to have gone the other way
+		// ... relative to where the variable is read: the load itself, or the creation of the function
+		// literal that reads it
+		at := x.Block()
+
+		if fv, ok := x.X.(*ssa.FreeVar); ok {
+			fn := fv.Parent()
+			for fn != nil && fn.Parent() != nil && fn.Parent() != al.Parent() {
+				fn = fn.Parent()
+			}
+
+			at = nil
+
+			if fn != nil {
+				if mc := p.ClosureSite(fn); mc != nil {
+					at = mc.Block()
+				}
+			}
+		}
+
+		des, complete := p.domChainEdges(st.Block(), at)
+
+		if !complete || len(des) == 0 {
+			return nil
+		}
+
+		// an edge that also dominates the reading site was certainly taken: it is not an alternative
+		var group []CondTruth
+
+		for _, e := range des {
+			ifi := e.If
+			if ifi != nil && at != nil {
+				succ := ifi.Block().Succs[1]
+				if e.Truth {
+					succ = ifi.Block().Succs[0]
+				}
+
+				if dominates(succ, at) {
+					continue
+				}
+			}
+
+			group = append(group, CondTruth{Cond: e.Cond, Truth: !e.Truth})
+		}
+
+		if len(group) == 0 {
+			return nil
+		}
+
+		return [][]CondTruth{group}
+	}
+
+	return nil
+}
+
+// loadedSingleValue: for a load of a local (possibly captured) that is assigned exactly once, at a
+// place that dominates the load / the capture, the assigned value; nil otherwise.
+func (p *Program) loadedSingleValue(load *ssa.UnOp) ssa.Value {
+	if load.Op != token.MUL {
+		return nil
+	}
+
+	switch a := load.X.(type) {
+	case *ssa.FreeVar:
+		if al := p.freeVarAlloc(a); al != nil {
+			if st := p.singleStoreSeenBy(al, a); st != nil {
+				return st.Val
+			}
+		}
+	case *ssa.Alloc:
+		if st := SingleStore(a); st != nil && st.Block() != nil && load.Block() != nil && st.Block().Parent() == load.Block().Parent() && dominates(st.Block(), load.Block()) {
+			return st.Val
+		}
+	}
+
+	return nil
+}
+
+// domChainEdges lists the If edges that dominate block s (each is taken whenever s executes), walking
+// the chain of s's dominators from the entry. If `at` is given, complete reports whether, conversely,
+// execution that reaches `at` having taken all of those edges must have executed s: no path from the
+// entry to `at` avoids s while following the listed edges.
+func (p *Program) domChainEdges(s, at *ssa.BasicBlock) (edges []CondTruth, complete bool) {
+	f := s.Parent()
+	if f == nil || len(f.Blocks) == 0 {
+		return nil, false
+	}
+
+	var chain []*ssa.BasicBlock
+
+	for _, d := range f.Blocks {
+		if dominates(d, s) {
+			chain = append(chain, d)
+		}
+	}
+
+	depth := func(b *ssa.BasicBlock) int {
+		n := 0
+
+		for _, d := range f.Blocks {
+			if dominates(d, b) {
+				n++
+			}
+		}
+
+		return n
+	}
+
+	sort.Slice(chain, func(i, j int) bool { return depth(chain[i]) < depth(chain[j]) })
+
+	only := map[*ssa.BasicBlock]*ssa.BasicBlock{} // If block → the successor the chain takes
+
+	for i := 0; i+1 < len(chain); i++ {
+		d, n := chain[i], chain[i+1]
+
+		if len(d.Instrs) > 0 {
+			if ifi, ok := d.Instrs[len(d.Instrs)-1].(*ssa.If); ok && len(d.Succs) == 2 && d.Succs[0] != d.Succs[1] && len(n.Preds) == 1 && (d.Succs[0] == n || d.Succs[1] == n) {
+				edges = append(edges, CondTruth{Cond: ifi.Cond, Truth: d.Succs[0] == n, If: ifi})
+				only[d] = n
+			}
+		}
+	}
+
+	if at == nil || at.Parent() != f || len(chain) == 0 || chain[0] != f.Blocks[0] {
+		return edges, false
+	}
+
+	// can `at` be reached from the entry without executing s, taking the listed edges where they apply?
+	seen := map[*ssa.BasicBlock]bool{s: true}
+	queue := []*ssa.BasicBlock{f.Blocks[0]}
+	complete = true
+
+	for len(queue) > 0 {
+		b := queue[0]
+		queue = queue[1:]
+
+		if seen[b] {
+			continue
+		}
+
+		seen[b] = true
+
+		if b == at {
+			complete = false
+
+			break
+		}
+
+		if n, ok := only[b]; ok {
+			queue = append(queue, n)
+
+			continue
+		}
+
+		queue = append(queue, b.Succs...)
+	}
+
+	return edges, complete
+}
+
+// ifOfCond finds the If of f whose condition is cond.
+func ifOfCond(f *ssa.Function, cond ssa.Value) *ssa.If {
+	if f == nil {
+		return nil
+	}
+
+	for _, b := range f.Blocks {
+		if len(b.Instrs) == 0 {
+			continue
+		}
+
+		if ifi, ok := b.Instrs[len(b.Instrs)-1].(*ssa.If); ok && ifi.Cond == cond {
+			return ifi
+		}
 	}
 
 	return nil
